@@ -309,9 +309,10 @@ def rust_str(b):
 
 
 class DebugFmt:
-    def __init__(self, impls, model=None):
+    def __init__(self, impls, model=None, registry=None):
         self.impls = impls
         self.model = model
+        self.registry = registry
 
     def sc(self, v):
         x = v.v
@@ -339,17 +340,17 @@ class DebugFmt:
             return self.fmt(v.cell.v)
         if isinstance(v, Lazy):
             if v.node.kind is None:
-                return "<lazy>"
-            return self.fmt(tree_to_value(node_to_tree(self.model, v.node)))
+                return "Null"        # undecided input positions are concretised as null
+            return self.fmt(tree_to_value(node_to_tree(self.model, v.node, self.registry)))
         if isinstance(v, VecV):
             if v.kind in ("string", "str"):
                 if self.model is None and (v.elems is None or any(is_sym(x.v) for x in v.elems)):
                     return "<symtext>"
-                return rust_str(seq_to_bytes(self.model, v))
+                return rust_str(seq_to_bytes(self.model, v, registry=self.registry))
             if v.elems is None:
                 if self.model is None:
                     return "<symbytes>"
-                return "[" + ", ".join(str(x) for x in seq_to_bytes(self.model, v)) + "]"
+                return "[" + ", ".join(str(x) for x in seq_to_bytes(self.model, v, registry=self.registry)) + "]"
             return "[" + ", ".join(self.fmt(x) for x in v.elems) + "]"
         if isinstance(v, SetV):
             return "{" + ", ".join(self.fmt(x) for x in v.elems) + "}"
@@ -380,7 +381,7 @@ class DebugFmt:
             return "OK " + self.fmt(r.fields[0])
         e = r.fields[0]
         if e.variant == "UnexpectedItem":
-            a, b = (rust_str(seq_to_bytes(self.model, deref_(x))) for x in e.fields)
+            a, b = (rust_str(seq_to_bytes(self.model, deref_(x), registry=self.registry)) for x in e.fields)
             return "ERR UnexpectedItem(%s, %s)" % (a, b)
         return "ERR " + e.variant
 
